@@ -1019,6 +1019,13 @@ def lct_first_word_rule(ctx, rule):
         for c in walk(ex):
             if c[0] == "call" and re.search(r"Index.*::index$", c[1]) and len(c[2]) == 2:
                 arr, idx = bits.strip(c[2][0]), bits.strip(c[2][1])
+                for _i in range(6):      # `&net[..]` where `net: &[u8]` is the unsized borrow of the array (a helper's parameter)
+                    if arr[0] in ("ref", "deref"):
+                        arr = bits.strip(arr[1])
+                    elif arr[0] == "cast":
+                        arr = bits.strip(arr[2])
+                    else:
+                        break
                 n = None
                 ty = arr[3] if (arr[0] in ("var", "tmp") and len(arr) > 3 and isinstance(arr[3], str)) else ""
                 m = re.search(r"\[u8; (\d+)\]", ty or "")
